@@ -12,7 +12,8 @@
     ExitedProcess), nextline/spawned/types.py (RunResult, RunArg), nextline/types.py (RunInfo),
     nextline/events.py (OnStartRun, OnEndRun), nextline/imp.py, nextline/main.py (result(),
     format_exception()), nextline/fsm/callback.py (Callback).
-    Logging, typing, docstrings and time stamps have no constructor: the translator drops them. *)
+    Logging, typing and docstrings have no constructor: the translator drops them (an ignored
+    position contains no call, walrus, await or yield). *)
 From Coq Require Import List String ZArith.
 Import ListNotations.
 
@@ -35,7 +36,12 @@ Inductive exp :=
 | EFormatTb (e : exp)                  (* ''.join(traceback.format_exception(type(<e>), <e>, <e>.__traceback__)) *)
 | EFmt (parts : list exp)              (* an f-string with these interpolated expressions *)
 | ETotal (f : string) (args : list exp)     (* a call that cannot raise and whose value nothing depends on:
-                                               datetime.now(timezone.utc), <dt>.strftime('...') *)
+                                               <dt>.strftime('<literal>') *)
+| ENowUtc                              (* datetime.now(timezone.utc): an aware time *)
+| ENaive (e : exp)                     (* <e>.replace(tzinfo=None): the naive time *)
+| EIsUtc (e : exp)                     (* <e>.tzinfo is timezone.utc *)
+| EIsAware (e : exp)                   (* is_timezone_aware(<e>)  (nextline/utils/utc.py) *)
+| ECallFn (f : string) (args : list exp)    (* <f>(args): a translated module-level plain function *)
 | EDictGet (d : string) (k : exp)      (* <module-level dict>.get(<k>)     None when the key is missing *)
 | EDictIndex (d : string) (k : exp)    (* <module-level dict>[<k>]         KeyError when the key is missing *)
 | EMethod (e : exp) (m : string) (args : list exp)   (* <e>.<m>(args): a method of a translated class *)
@@ -53,6 +59,7 @@ Inductive stmt :=
 | SAssert (e : exp)
 | SIf (c : exp) (a b : list stmt)
 | SReturn (e : exp)
+| SRaise                                       (* raise <an exception built without a call on tracked data> *)
 | SPublish (topic : string) (e : exp)          (* await context.pubsub.publish('<topic>', <e>) *)
 | SAwaitHook (h : string) (kw : list (string * exp))   (* await context.hook.ahook.<h>(k=v, ...) *)
 | SCall (f : string) (args : list exp).        (* await <f>(args): a translated module-level coroutine function *)
